@@ -170,6 +170,18 @@ def main(argv=None):
         obs = [o for o in obs if a.only in o.name]
     findings = load_findings()
     os.makedirs(REPLAYS, exist_ok=True)
+    # every recorded (not repaired) finding carries a concrete witness that is replayed on each run:
+    # if it no longer fails the entry is stale and the check says so instead of silently suppressing
+    stale = []
+    for f in findings:
+        if f.get('status') == 'known' and f.get('property') == prop and f.get('witness'):
+            wpath = os.path.join(REPLAYS, '%s-witness.json' % prop)
+            w = f['witness']
+            json.dump({'property': prop, 'module': w['module'], 'function': w['function'], 'call_args': w['call_args'], 'pins': {}}, open(wpath, 'w'))
+            rp = run_replay(wpath)
+            os.remove(wpath)
+            if not rp.get('reproduced') or rp.get('clause') != f.get('match', {}).get('failed_clause'):
+                stale.append(f['what'])
 
     results = []
     with cf.ThreadPoolExecutor(max_workers=a.jobs) as ex:
@@ -321,6 +333,8 @@ def main(argv=None):
         if f['what'] not in seen:
             seen.add(f['what'])
             print('KNOWN-FINDING: property=%s %s' % (prop, f['what']))
+    for w in stale:
+        print('STALE-FINDING: property=%s the recorded witness no longer fails: %s' % (prop, w))
     for s in harness_errors:
         print('HARNESS-ERROR %s' % s)
     shown = {}
